@@ -728,7 +728,7 @@ def kk_opts(row, n):
     max_rc = 2 * n - 5
     if test.endswith("-inv"):
         max_rc = min(n + 10, max_rc)
-    numrc = {"auto": 0, "valid": max(2, min(max_rc, n // 2)), "max": max_rc, "over": max_rc + 1, "one": 1}[row["numrc"]]
+    numrc = {"auto": 0, "valid": max(2, min(max_rc, n // 2)), "max": max_rc, "over": max_rc + 1, "one": 1, "neg": -1, "neg3": -3}[row["numrc"]]
     lo, hi = KK_GRIDS[row["grid"]]
     o = {"test": test, "num_RC": int(numrc), "add_capacitance": bool(row["C"]), "add_inductance": bool(row["L"]), "admittance": row["adm"],
          "min_log_F_ext": lo, "max_log_F_ext": hi, "log_F_ext": float(row.get("lfe", 0.0)), "num_F_ext_evaluations": int(row["nfe"]),
@@ -1002,9 +1002,11 @@ def gen_cases(tier, seed):
         cases += _pack("kk", sp, [calls[i] for i in order], [costs[i] for i in order], budget, "kk:full-cross" if full else "kk:pairwise")
     # exhaustive cheap block: every (test, representation, C, L) cell at a fixed log F_ext, fixed and automatic num_RC
     sp = _spec(rng, int(rng.choice([8, 9, 10, 11])), ppd=rng.choice([2, 3]))
-    rows = cross({"test": KK_TESTS, "adm": [False, True, None], "C": [True, False], "L": [True, False], "numrc": ["valid", "auto"], "nfe": [0],
+    rows = cross({"test": KK_TESTS, "adm": [False, True, None], "C": [True, False], "L": [True, False], "numrc": ["valid", "auto", "neg", "neg3"], "nfe": [0],
                   "rapid": [True], "grid": ["default"], "np": [1]})
-    rows = [r for r in rows if not (r["test"] == "cnls" and r["numrc"] == "auto")]
+    # 'automatic' in its other documented spelling (any num_RC below one): a third of the cells
+    rows = [r for r in rows if not r["numrc"].startswith("neg") or (r["C"] and not r["L"] and (r["numrc"] == "neg") == (r["adm"] is not True))]
+    rows = [r for r in rows if not (r["test"] == "cnls" and r["numrc"] in ("auto", "neg", "neg3"))]
     calls = [kk_opts(r, sp["n"]) for r in rows]
     costs = [kk_cost(o, sp["n"]) for o in calls]
     cases += _pack("kk", sp, calls, costs, budget, "kk:direct-exhaustive")
